@@ -8,6 +8,7 @@ from trie.utils.db import ScratchDB
 from ..util import Abort, Info, cm_enter, cm_exit, expect, expect_eq, impl
 
 ID = "C17"
+ATHERIS = True  # thorough tier: coverage-guided second engine over the same strategy/run_case
 LEVEL = "fault_enumeration"
 BUDGET = {"quick": 24000, "thorough": 1200000}
 RULE = (
